@@ -101,9 +101,14 @@ def application_rows(f):
             continue
         init = loop["c"][0]
         K = None
-        for x in walk(init):
-            if x["k"] == "CXXMemberCallExpr" and (f.decl(x) or {}).get("n") in ("begin", "cbegin"):
+        # the container is the one whose end() bounds the loop (the initialiser may be anything - that is R-APPLYALL's business)
+        for x in (walk(loop["c"][1]) if loop["c"][1] is not None else []):
+            if x["k"] == "CXXMemberCallExpr" and (f.decl(x) or {}).get("n") in ("end", "cend"):
                 K = _field(f, member_call_object(x))
+        if K is None:
+            for x in walk(init):
+                if x["k"] == "CXXMemberCallExpr" and (f.decl(x) or {}).get("n") in ("begin", "cbegin"):
+                    K = _field(f, member_call_object(x))
         if K is None or K == "suppressions":
             continue
         body = loop["c"][3]
@@ -164,6 +169,26 @@ def check_chgkind_b(ctx, P):
         ctx.ob("R-CHGKIND/b", ent, not problems, f.loc(loop),
                "iterates %s, passes %s, stores into %s" % (K, enum or "(type suppression)", store) if not problems else
                "; ".join(problems) + ": the wrong interfaces / the wrong kind of change get hidden")
+    # R-APPLYALL: a suppression is evaluated against *every* entry of the container: the loop starts at begin() of the very
+    # container whose end() bounds it and nothing leaves it early
+    for loop, K, pred, enum, store in rows:
+        init = loop["c"][0]
+        starts = [x for x in walk(init) if x["k"] == "CXXMemberCallExpr" and (f.decl(x) or {}).get("n") in ("begin", "cbegin") and
+                  _field(f, member_call_object(x)) == K] if init is not None else []
+        other_calls = [x for x in walk(init) if x["k"] == "CallExpr"] if init is not None else []
+        body = loop["c"][3]
+        early = [x for x in walk(body) if x["k"] in ("BreakStmt", "ReturnStmt", "GotoStmt") and
+                 not any(a["k"] in ("ForStmt", "WhileStmt", "DoStmt", "CXXForRangeStmt", "SwitchStmt") and a is not loop and
+                         any(z is a for z in walk(body)) for a in f.ancestors(x))]
+        ok = bool(starts) and not other_calls and not early
+        key = "%s via %s" % (K, pred)
+        seen[key + "#all"] = seen.get(key + "#all", 0) + 1
+        ctx.ob("R-APPLYALL", "apply_supprs: every entry of %s is offered to %s%s" % (K, pred, "" if seen[key + "#all"] == 1 else " #%d" % seen[key + "#all"]),
+               ok, f.loc(loop), "from %s.begin() to %s.end(), no early exit" % (K, K) if ok else
+               "the loop %s%s: a suppression that designates an interface of %s can be left unevaluated, so the interface is neither "
+               "hidden nor counted as filtered out" % (
+                   "does not start at %s.begin() (`%s`)" % (K, " ".join(expr_str(f, v["c"][0])[:60] for v in walk(init) if v["k"] == "VarDecl" and v.get("c") and v["c"][0] is not None) or expr_str(f, init)[:60]) if (not starts or other_calls) else "",
+                   (" and " if (not starts or other_calls) and early else "") + ("leaves early (`%s`)" % early[0]["k"].replace("Stmt", "").lower() if early else ""), K))
     return rows
 
 
